@@ -1,4 +1,26 @@
-"""Per-property evidence text: what is decided, what is not, what is trusted."""
-EXPLAIN = {}
-NOT_DECIDED = {}
-TRUSTED = {}
+"""Per-property evidence / manifest text: what is decided, what is not, what is trusted."""
+
+COMMON_TRUST = ['tokio (mpsc/oneshot FIFO and wake-ups, timers, select!)', 'scursor read/write cursors (bounds-checked accessors)', 'std collections / Mutex']
+
+EXPLAIN = {
+ 'C02': "Decides the structural half of C02 on the MIR of the current tree, for all paths and all call sites: (R02.1) who-may-call - the eight RequestHandler methods are called only from Request::get_reply (its four read closures included) and BroadcastRequest::execute; (R02.2) those are reached only from SessionTask::handle_frame, itself only from run_one; (R02.3) inside handle_frame both dispatch sites are dominated by the Some edge of FunctionCode::get, the Ok edge of the checked Request::parse, the Allow edge of is_authorized (and unreachable from Deny), the matching FrameDestination arm, and the Some edge of handlers.get(frame unit id) / into_broadcast_request, with exact value-flow of function byte, cursor, request and handler; (R02.4) exactly-once shape - one acyclic handler call per get_reply arm, read closures pass their own argument, the getter is invoked once per AddressRange::iter() item in serialize and never from log, execute sits only in the loop over handlers.iter_mut(), one serialize per reply; (R02.5) the range given to write handlers is the very value parse_all validated against; (R02.6) &self/&mut self signature facts. It does NOT decide the values handlers receive, nor application state over request sequences.",
+ 'C08': "Decides the structural half of C08 for all paths of handle_frame and all arms of the authorization tables: (R08.1) is_authorized is evaluated once, after the checked parse, with frame.header.destination.into_unit_id() and the parsed request, and dominates every effectful call a parsed request can reach (effect summaries closed over the crate call graph); (R08.2) from the Deny edge no handler, lookup, lock, broadcast conversion or wire write is reachable except one reply_with_error(frame.header, request.get_function(), IllegalFunction) guarded by !is_broadcast, and the path does not rejoin the Allow path; (R08.3) check_authorization maps each Request variant to the same-named AuthorizationHandler callback with unit_id/role passed through and the matched payload's range/index; (R08.4) no stored decision: &self, no Authorization field, None arm returns Allow, every exit of the Handler arm returns check_authorization's value unchanged; (R08.5) provided trait methods return Deny, read-only policy table; (R08.6) AuthorizationType::Handler is built only in TlsServerConfig::handle_connection from the checked extract_modbus_role result; (R08.7) C-ABI wrappers call the same-named callback and unwrap_or(Deny). It does NOT decide equivalence with a no-authorization run or arbitrary policy functions.",
+}
+
+NOT_DECIDED = {
+ 'C02': "argument values seen by handlers (iterator arithmetic), application state after sequences of requests",
+ 'C08': "execution equality of allowed requests with the unauthorised server; policies as arbitrary functions; certificate parsing inside rx509",
+}
+
+TRUSTED = {
+ 'C02': COMMON_TRUST,
+ 'C08': COMMON_TRUST + ['rx509 / rustls certificate handling (role extension bytes)'],
+}
+
+TECHNIQUE = {
+}
+DEFAULT_TECHNIQUE = "custom MIR lint (rustc_private driver): dominance / reachability / who-may-call / match-table / exact value-flow rules"
+
+DESIGN_REF = {p: "DESIGN.md section 4, %s" % p for p in ['C%02d' % i for i in range(1, 21)]}
+
+NA_REASON = {}
